@@ -230,7 +230,7 @@ def quotient_impl(ctx, path, num_idx, den_idx, inst, op="Div"):
     rt = Terms(b).return_term()
     A = Arith(ctx.F, {("field", ("arg", 1), num_idx): "n", ("field", ("arg", 1), den_idx): "d"})
     # tuple fields appear as field(arg1, 0)/(arg1,1)
-    A.symbols = {nosite(("field", ("arg", 1), 0)): "x0", nosite(("field", ("arg", 1), 1)): "x1"}
+    A.symbols = {nosite(("field", ("arg", 1), "0")): "x0", nosite(("field", ("arg", 1), "1")): "x1"}
     r = A.ev(deep_strip(rt))
     x0, x1 = Ratio(Poly.sym("x0")), Ratio(Poly.sym("x1"))
     want = (x0 / x1) if op == "Div" else (x0 * x1)
